@@ -72,8 +72,64 @@ func init() {
 			if v2 != 0 {
 				c.R.Stats.HarnessErrors = append(c.R.Stats.HarnessErrors, "selftest: false alarm on locked counter")
 			}
-			c.R.Stats.Executions = n1 + n2
-			c.R.Stats.NonTrivial = n1 + n2 - 2
-			c.R.Stats.Samples = append(c.R.Stats.Samples, map[string]any{"racy_executions": n1, "racy_violations": v1, "locked_executions": n2, "locked_violations": v2})
+			// GoInterrupt: an interrupt at step k. A worker checks a flag, then acts; the
+			// interrupter sets the flag and expects no action afterwards. The window lies
+			// between the worker's check and its act: with the interrupter enumerated over
+			// every step it is found with NO deviation, and the interrupter must resume
+			// exactly at the step asked for.
+			var n3, v3, wrongStep int64
+			for k := 1; k <= 12; k++ {
+				k := k
+				var closed, actedAfter bool
+				var resumedAt int
+				u := &explore.Unit{Name: fmt.Sprintf("interrupt-at-step-%d", k), Bound: 0}
+				u.Body = func() {
+					closed, actedAfter, resumedAt = false, false, 0
+					done := make(chan struct{}, 2)
+					vrt.GoNamed("worker", func() {
+						for i := 0; i < 3; i++ {
+							vrt.Yield("check")
+							ok := !closed
+							vrt.Yield("act")
+							if ok && closed {
+								actedAfter = true
+							}
+						}
+						vrt.Send(done, struct{}{})
+					})
+					vrt.GoInterrupt("interrupter", func() bool { return vrt.Steps() >= k }, func() {
+						resumedAt = vrt.Steps()
+						closed = true
+						vrt.Send(done, struct{}{})
+					})
+					vrt.Recv(done)
+					vrt.Recv(done)
+				}
+				u.Check = func(res *vrt.Result) *explore.Finding {
+					if actedAfter {
+						return &explore.Finding{Class: "acted-after-close", Msg: fmt.Sprint(k)}
+					}
+					return nil
+				}
+				rr := explore.NewRunner("SELFTEST", 0, 1, time.Time{}, "")
+				rr.Explore([]*explore.Unit{u})
+				n3 += rr.Stats.Executions
+				v3 += rr.Stats.ClassCounts["acted-after-close"]
+				if k >= 3 && k <= 8 && resumedAt != k {
+					wrongStep++
+					c.R.Stats.HarnessErrors = append(c.R.Stats.HarnessErrors, fmt.Sprintf("k=%d resumed at %d", k, resumedAt))
+				}
+				c.R.Stats.HarnessErrors = append(c.R.Stats.HarnessErrors, rr.Stats.HarnessErrors...)
+			}
+			if v3 == 0 {
+				c.R.Stats.HarnessErrors = append(c.R.Stats.HarnessErrors, "selftest: check-then-act window not found by interrupts at every step")
+			}
+			if wrongStep != 0 {
+				c.R.Stats.HarnessErrors = append(c.R.Stats.HarnessErrors, fmt.Sprintf("selftest: the interrupt resumed at another step than asked for (%d units)", wrongStep))
+			}
+			c.R.Stats.Executions = n1 + n2 + n3
+			c.R.Stats.NonTrivial = n1 + n2 - 2 + n3
+			c.R.Stats.Samples = append(c.R.Stats.Samples, map[string]any{"racy_executions": n1, "racy_violations": v1, "locked_executions": n2, "locked_violations": v2,
+				"interrupt_units": 12, "interrupt_executions": n3, "interrupt_violations": v3})
 		}})
 }
